@@ -9,6 +9,49 @@ VERIF = os.path.dirname(os.path.dirname(os.path.abspath(__file__)))
 REPO = os.environ.get("VERIF_REPO", "/repo")
 GUARD = "CHESSPP_VERIF"
 
+def gsan_engine():
+    """the engine's own executable built with g++ -O0 and AddressSanitizer + UndefinedBehaviorSanitizer (recoverable): at -O0 every
+    load the source performs is performed, so loads of indeterminate bool / enum members (copies of half-initialised objects) are
+    reported; used by C10 for short whole-process sessions.  Engine sources only; cached under its own key."""
+    srcs = sorted(glob.glob(os.path.join(REPO, "engine", "*.cpp")))
+    h = hashlib.sha256()
+    for f in srcs + sorted(glob.glob(os.path.join(REPO, "engine", "*.h"))):
+        h.update(f.encode()); h.update(open(f, "rb").read())
+    bdir = os.path.join(VERIF, ".build", "gsan-" + h.hexdigest()[:20])
+    exe = os.path.join(bdir, "engine")
+    if os.path.exists(exe):
+        return exe
+    for d in sorted(glob.glob(os.path.join(VERIF, ".build", "gsan-*")), key=lambda d: os.path.getmtime(d))[:-1]:
+        shutil.rmtree(d, ignore_errors=True)
+    tmp = bdir + ".tmp%d" % os.getpid()
+    os.makedirs(tmp, exist_ok=True)
+    with open(os.path.join(tmp, "chessplusplusConfig.h"), "w") as f:
+        f.write('#define ENGINE_NAME "chessplusplus"\n#define CHESSPLUSPLUS_VERSION "verif"\n')
+    common = ["g++", "-std=c++20", "-O0", "-g", "-fsanitize=address,undefined", "-D" + GUARD, "-DLOG_LEVEL=0", "-DNDEBUG", "-pthread",
+              "-I" + os.path.join(REPO, "engine"), "-I" + tmp]
+    def comp(src):
+        obj = os.path.join(tmp, os.path.basename(src)[:-4] + ".o")
+        r = subprocess.run(common + ["-c", src, "-o", obj], capture_output=True, text=True)
+        return (obj, r.returncode, r.stderr)
+    with ThreadPoolExecutor(max_workers=16) as ex:
+        res = list(ex.map(comp, srcs))
+    bad = [r for r in res if r[1] != 0]
+    if bad:
+        sys.stderr.write("GSAN BUILD FAILED\n" + bad[0][2][-3000:])
+        shutil.rmtree(tmp, ignore_errors=True)
+        raise SystemExit(3)
+    r = subprocess.run(["g++", "-pthread", "-fsanitize=address,undefined"] + [o for o, _, _ in res] + ["-o", os.path.join(tmp, "engine")], capture_output=True, text=True)
+    if r.returncode != 0:
+        sys.stderr.write("GSAN LINK FAILED\n" + r.stderr[-3000:])
+        shutil.rmtree(tmp, ignore_errors=True)
+        raise SystemExit(3)
+    try:
+        os.rename(tmp, bdir)
+    except OSError:
+        shutil.rmtree(tmp, ignore_errors=True)
+    return exe
+
+
 VARIANTS = {
     # name: (compiler, flags, link flags)
     "plain": ("g++", ["-O1", "-g"], []),
